@@ -8,6 +8,7 @@ import VerdeModel.Gen.Coords
 import VerdeModel.Model.Windows
 import VerdeModel.Gen.Trend
 import VerdeModel.Gen.Utils
+import VerdeModel.Gen.IO
 open Verde
 
 def fl (x : Float) : String := floatStr x
@@ -150,9 +151,44 @@ def utils2 : IO Unit := do
       let m := varianceToWeights v tol
       IO.println s!"v2w {optS v} {ratS tol} | {",".intercalate (g.map ratS)} | {",".intercalate (m.map ratS)}"
 
+def tokS : Tok → String
+  | .int n => s!"i:{n}" | .num q => s!"n:{ratS q}" | .bad => "b"
+def toksS (l : List Tok) : String := if l.isEmpty then "-" else ",".intercalate (l.map tokS)
+
+def ioProbes : IO Unit := do
+  let hS := fun (x : Except Err (String × List Int × (Rat × Rat × Rat × Rat) × List Rat)) => match x with
+    | .ok (g, sh, (w, e, s, n), r) =>
+      let shs := if sh.isEmpty then "-" else ",".intercalate (sh.map toString)
+      let rs := if r.isEmpty then "-" else ",".intercalate (r.map ratS)
+      s!"{if g.isEmpty then "-" else g} {shs} {ratS w},{ratS e},{ratS s},{ratS n} {rs}"
+    | .error _ => "err"
+  let shapes : List (List Tok) := [[.int 2, .int 3], [.int 3], [.int 2, .num (5/2)], [.bad, .int 1], [], [.int 1, .int 2, .int 3]]
+  let pairs : List (List Tok) := [[.int 0, .int 4], [.num (1/2), .num (-3/2)], [.int 1], [.int 1, .int 2, .int 3], [.bad, .int 2], []]
+  for sh in shapes do
+    for ns in pairs do
+      for we in [pairs.getD 1 [], pairs.getD 0 [], pairs.getD 2 []] do
+        for rg in [pairs.getD 0 [], pairs.getD 2 [], pairs.getD 3 [], pairs.getD 4 []] do
+          let f : SurferFile := ⟨"DSAA", sh, ns, we, rg, [], false, surferBlank⟩
+          let g := Gen.readSurferHeader [⟨"DSAA", []⟩, ⟨"", sh⟩, ⟨"", ns⟩, ⟨"", we⟩, ⟨"", rg⟩, ⟨"", [.int 1, .int 2, .int 3]⟩]
+          let m := (parseHeader f).map fun h => (f.gridId, h.shape, (h.west, h.east, h.south, h.north), h.range)
+          IO.println s!"readHeader DSAA {toksS sh} {toksS ns} {toksS we} {toksS rg} | {hS g} | {hS m}"
+  let uS := fun (x : Except Err Unit) => match x with | .ok _ => "ok" | .error .ioError => "err" | .error _ => "err2"
+  let bodies : List (List (List Rat)) := [[[1, 2, 3], [4, 5, 6]], [[1, 2, 3]], [[7]], [[0, 1], [2, 3], [4, 5]]]
+  for b in bodies do
+    for shp in [[(2 : Int), 3], [3, 2], [3], [1], [1, 1], [3, 2, 1], []] do
+      for rg in [[(1 : Rat), 6], [1, 3], [7, 7], [7], [0, 5], [1, 6 + 1/100000000], [1, 7], [], [1, 2, 3]] do
+        let vals := b.flatten
+        let g := Gen.checkSurferIntegrity (fieldShape b) vals shp rg
+        let m : Except Err Unit := do guardE (decide (fieldShape b = shp)) .ioError; rangeCheck rg vals
+        let bS := ";".intercalate (b.map fun r => ",".intercalate (r.map ratS))
+        let sS := if shp.isEmpty then "-" else ",".intercalate (shp.map toString)
+        let rS := if rg.isEmpty then "-" else ",".intercalate (rg.map ratS)
+        IO.println s!"checkIntegrity {bS} {sS} {rS} | {uS g} | {uS m}"
+
 def main (args : List String) : IO Unit :=
   match args with
   | ["kernels"] => do kernels; trend
   | ["coords"] => do coords; coords2
   | ["utils"] => do utils; utils2
+  | ["io"] => ioProbes
   | _ => IO.println "usage: GenEval kernels|coords"
